@@ -25,6 +25,12 @@ CLAIMED = {
  "C09": ("exploration",
    "Seeded search over register / re-register / unregister (exact, other case, unknown, twice, at 5-5000 ms after register) / shutdown histories on 1-3 interfaces; status replies, goodbye content per interface and family (TTL 0, names, addresses of that link), absence where never announced, byte-identical repeat at +120 ms, and silence afterwards are read from the wire.",
    "7.9", "'Announced on an interface' is read from the wire; services renamed by a conflict are judged by C08, not here."),
+ "C12": ("exploration",
+   "Metamorphic simulation: every seeded world (search, register, browse, ipcheck, tiebreak families) is executed twice on the virtual clock, once silent and once with an additional wake-up every 37 / 211 / 1009 ms although nothing is due; the packet and event histories (with times) must be identical, so any work that had no wake-up request of its own shows as a difference. The silent run is also scanned for runs of do-nothing wake-ups requested for 'now' (spin), with the interface-check interval at default, huge, zero and changed at run time.",
+   "7.12", "Relies on extra wake-ups being no-ops for a correct daemon; only work due before the horizon can be revealed; packets sent within one millisecond are compared as multisets."),
+ "C13": ("exploration",
+   "Seeded interleavings of browse / re-browse / browse_cache / stop / resolve_hostname (timeouts, letter cases) / stop_resolve_hostname / shutdown placed at, just before and after retransmission times, against answering peers, observed for minutes to hours after each stop: per-channel protocol (SearchStarted first, Found before Resolved, SearchStopped once and last), no query for a stopped type or host on the wire, cache forgotten (cache-only browse right after a stop), replaced browse hands over.",
+   "7.13", "A search counts as stopped from the end of the consuming step; refresh queries on behalf of a cache-only browse are a known finding."),
  "C19": ("exploration",
    "Seeded search over search histories (browse / resolve_hostname / stop / re-browse / receiver drop) on 1-3 interface hosts over hours to days of virtual time. Silent-network runs demand ms-exact equality between the queries on the wire (per interface and address family) and the 1,2,4...2048,3600 s schedule derived from the call history; responder runs demand that every query is covered by the schedule or a refresh/follow-up/verify allowance. Sampling, not proof; the schedule space per search is small and the cap (hour 1+) is reached in most runs.",
    "7.19", "Trusts the seam (send_to capture, virtual clock), the independent wire parser, and that the lock-step gate does not change loop behaviour; allowances in responder runs are upper bounds."),
